@@ -31,7 +31,7 @@ def Ft.checkFinished (t : Ft) (fromFlfi : Bool) : Ft :=
         { t with state := .complete, fileSize := if t.fileSize == 0 then t.recvdPayload else t.fileSize }
       else t
     else { t with state := .incomplete }
-  else if gtNr t.nrPackages t.nextPackage && (t.fileSize == 0 || t.fileSize == t.recvdPayload) then
+  else if gtNr t.nrPackages t.nextPackage && t.fileSize == t.recvdPayload then
     { t with fileSize := t.recvdPayload, state := .complete }
   else if geNr t.nrPackages t.recvdPackages then { t with state := .incomplete }
   else t
